@@ -49,6 +49,7 @@ type Script struct {
 	Raw          string      `json:"raw,omitempty"`      // hijack and write these literal bytes, then close
 	RawReset     bool        `json:"raw_reset,omitempty"` // close with RST after Raw
 	Gzip         bool        `json:"gzip,omitempty"`     // body bytes are a gzip stream of the generated body
+	HangFirst    bool        `json:"hang_first,omitempty"` // never send a header block (wait until the peer gives up)
 }
 
 // Encode renders the script for the ScriptHeader.
@@ -251,6 +252,13 @@ func (b *Backend) Release(key string) {
 	}
 }
 
+// Rearm makes hold steps with this key block again (after a Release).
+func (b *Backend) Rearm(key string) {
+	b.mu.Lock()
+	delete(b.holds, key)
+	b.mu.Unlock()
+}
+
 func (b *Backend) holdChan(key string) chan struct{} {
 	b.mu.Lock()
 	defer b.mu.Unlock()
@@ -346,6 +354,13 @@ func (b *Backend) serve(w http.ResponseWriter, r *http.Request) {
 	b.arrivals = append(b.arrivals, a)
 	b.mu.Unlock()
 
+	if sc.HangFirst {
+		select {
+		case <-time.After(time.Hour):
+		case <-r.Context().Done():
+		}
+		return
+	}
 	if sc.Raw != "" || sc.RawReset {
 		hj, ok := w.(http.Hijacker)
 		if !ok {
